@@ -25,12 +25,15 @@ def _rank_hash(self):
     return r
 
 
-def install_rank_hash():
-    """Idempotent; call before any block is created in an execution."""
+def install_rank_hash(auto_base=64):
+    """
+    Idempotent; call before any block is created in an execution.  auto_base = first rank given to
+    blocks that get no explicit rank (e.g. inverters created by the library during finalisation).
+    """
     global _auto    # pylint: disable=global-statement
     if _block.Block.__hash__ is not _rank_hash:
         _block.Block.__hash__ = _rank_hash
-    _auto = itertools.count(64)
+    _auto = itertools.count(auto_base)
 
 
 def set_ranks(blocks, perm):
